@@ -1525,7 +1525,8 @@ static void c12_quiescent_check(const char *after)
     }
 }
 
-static const char *c12_forwarders[] = { "idem", "skip", "delay", "setattr", "setrap", "nodemux", "noclock", "probe_uref", "match_attr", "htons", "dup", "setflowdef", "ts_align" };
+#include "labbin.inc.c"
+static const char *c12_forwarders[] = { "idem", "skip", "delay", "setattr", "setrap", "nodemux", "noclock", "probe_uref", "match_attr", "htons", "dup", "setflowdef", "ts_align", "labbin" };
 /* ts_align is a bin (helper_bin_input / helper_bin_output): every flow
  * definition it is given replaces its inner pipe (ts_sync, ts_check or idem),
  * the requests lodged on the bin must follow */
@@ -1546,10 +1547,11 @@ static void c12_case(struct vh_rng *r)
         const char *nm = c12_forwarders[vh_below(R, sizeof(c12_forwarders) / sizeof(c12_forwarders[0]))];
         const struct desc *d = NULL;
         for (int i = 0; i < NCAT; i++) if (!strcmp(catalogue[i].name, nm)) d = &catalogue[i];
-        struct upipe_mgr *mgr = d->mgr_alloc();
+        struct upipe_mgr *mgr = d ? d->mgr_alloc() : labbin_mgr_alloc();
         c12_pipes[k] = upipe_void_alloc(mgr, lab_probe_new(nm, &c12_pipe_ids[k]));
         upipe_mgr_release(mgr);
-        c12_is_bin[k] = !strcmp(nm, "ts_align");
+        c12_is_bin[k] = !strcmp(nm, "ts_align") || !strcmp(nm, "labbin");
+        if (!strcmp(nm, "labbin")) VH_COUNT("c12.bins_replacing_their_inner_in_two_steps");
         if (c12_is_bin[k]) {
             struct uref *bfd = make_flow_def(c12_bin_defs[vh_below(R, 3)], 1);
             if (!ubase_check(upipe_set_flow_def(c12_pipes[k], bfd))) vh_violation("c04:ts_align:rejected-own-flow-def", "rejected");
